@@ -30,7 +30,7 @@ CHECKS["C05"] = {
             "the exact urn conditional; unordered pmf = #orderings x ordered pmf; assemble prior invariances; Gamma-ratio = rising factorial. Model tied to "
             "the three prior functions by exhaustive enumeration of small genotype spaces at 1e-9.",
     "design_ref": "DESIGN.md section 4, C05",
-    "note": _NOTE + "lgamma/log/exp evaluation is compared, not proved; assemble==call(flat) is proved on instances and checked by correspondence in general.",
+    "note": _NOTE + "lgamma/log/exp evaluation is compared, not proved; that get_haplotype_dosage yields the multiplicities (a permutation of the count vector plus zeros) is checked by correspondence.",
     "technique": "Lean 4 proof (Chu-Vandermonde by antidiagonal induction, convolution over compositions, Polya urn) + exhaustive differential correspondence",
 }
 
@@ -42,8 +42,8 @@ CHECKS["C01"] = {
             "(options, exact R and Q) is tied to base_step / interval_step / chain_swap_acceptance by comparing the full map "
             "{unordered result -> probability} at 1e-9; the implementation oracle extracts the whole transition matrix on enumerated instances.",
     "design_ref": "DESIGN.md section 4, C01",
-    "note": _NOTE + "The refinement of the literal option enumerators to the abstract path sets is covered by the correspondence and the "
-            "implementation oracle, not by a theorem; the kernel is observed on .py_func with random_choice replaced; ergodicity is not claimed.",
+    "note": _NOTE + "The literal option enumerators are proved to have the abstract path counts and to produce abstract paths with the same targets "
+            "(labels level); that the integer labels name segments injectively (segmentLabels) is covered by the correspondence; the kernel is observed on .py_func with random_choice replaced; ergodicity is not claimed.",
     "technique": "Lean 4 proof (factorial-product swap lemma, MH core, path-wise reversal bijection, rpow algebra) + kernel-level differential correspondence",
 }
 CHECKS["C02"] = {
@@ -51,7 +51,7 @@ CHECKS["C02"] = {
             "(hence reversible), the call-exact weight is #orderings x that ordered weight, the MH variant satisfies detailed balance with the "
             "allele-copy-count ratio, sorting leaves the weight unchanged; model tied to gibbs_options / mh_options (jitted and py_func) at 1e-9.",
     "design_ref": "DESIGN.md section 4, C02",
-    "note": _NOTE + "Stated for F > 0 with explicit frequencies (flat / F = 0 are covered by C05's closed forms and by the correspondence); "
+    "note": _NOTE + "Stated for F > 0 with explicit frequencies, for F = 0 with any frequencies, and the flat prior is proved equal to the explicit flat vector; "
             "states of zero prior probability are excluded (unreachable).",
     "technique": "Lean 4 proof (urn conditional from C05, MH lemma from C01) + differential correspondence + exact-conditional oracle",
 }
